@@ -502,15 +502,49 @@ def _content(storage):
     return out
 
 
+class _VirtualTime:
+    """time.sleep does not wait but advances time.monotonic()/time.time() (patched from the
+    harness): a load() that polls for something (a lock left by a dead process …) finishes at
+    once and `slept` says how long it would have waited."""
+
+    def __enter__(self):
+        import time
+        self._t = time
+        self._orig = (time.sleep, time.monotonic, time.time)
+        self.slept = 0.0
+        o_mono, o_time = time.monotonic, time.time
+
+        def sleep(dt):
+            self.slept += max(0.0, float(dt))
+
+        time.sleep = sleep
+        time.monotonic = lambda: o_mono() + self.slept
+        time.time = lambda: o_time() + self.slept
+        return self
+
+    def __exit__(self, *exc):
+        self._t.sleep, self._t.monotonic, self._t.time = self._orig
+        return False
+
+
+LOAD_WAIT_LIMIT = 1.0      # seconds a load() may wait (virtual sleep; real seconds for event-loop waits)
+
+
 def _fresh_load(loop, path):
-    """The oracle's observation: load `path` into a brand-new FileStorage."""
+    """The oracle's observation: load `path` into a brand-new FileStorage.  A load that has to
+    wait (more than LOAD_WAIT_LIMIT) counts like one that raises: the file is not usable."""
     from pyatv.storage.file_storage import FileStorage
 
     st = FileStorage(path, loop)
-    try:
-        loop.run_until_complete(st.load())
-    except Exception as e:  # observation, not a harness error
-        return ("raises", type(e).__name__)
+    with _VirtualTime() as vt:
+        try:
+            loop.run_until_complete(asyncio.wait_for(st.load(), timeout=LOAD_WAIT_LIMIT + 2.0))
+        except asyncio.TimeoutError:
+            return ("raises", "load-does-not-finish")
+        except Exception as e:  # observation, not a harness error
+            return ("raises", type(e).__name__ + (":after-waiting-%ds" % vt.slept if vt.slept > LOAD_WAIT_LIMIT else ""))
+    if vt.slept > LOAD_WAIT_LIMIT:
+        return ("raises", "load-waits-%ds" % vt.slept)
     return ("ok", _content(st))
 
 
@@ -827,7 +861,9 @@ def run_scenario(ctx, loop, sc, full_prefixes, lean_jobs, want_states=False):
                 else:
                     row.setdefault(0, content)
                 if obs not in (("ok", content_old), ("ok", content_new)):
-                    if obs[0] == "raises":
+                    if obs[0] == "raises" and ("waiting" in obs[1] or obs[1].startswith("load-")):
+                        sig = "save-crash:load-blocked"        # the file may be intact, but load() waits / gives up (stale lock …)
+                    elif obs[0] == "raises":
                         sig = "save-crash:%s:load-raises" % ("empty-file" if content == b"" else "truncated-file" if content is not None and final_target is not None and len(content) < len(final_target) and final_target.startswith(content) else "damaged-file")
                     else:
                         sig = "save-crash:loads-neither-old-nor-new"
@@ -914,6 +950,8 @@ def with_faults(ctx, loop, sc, full, jobs, want_states=False):
         for k in sorted({0, 1, n // 2, n - 1} & set(range(max(n, 1)))):
             run_scenario(ctx, loop, dict(sc, mode="short:%d:%d" % (j, k)), False, jobs)
     for j in range(res["n_ops"]):
+        if len(ctx.failures) >= 40:
+            break
         first = dict(sc, mode="fault:%d:16" % j)
         jobs_before = len(jobs)
         run_scenario(ctx, loop, first, False, jobs)
@@ -1031,10 +1069,40 @@ def second_saves(ctx, loop, sc, states, jobs, limit):
             run_scenario(ctx, loop, sc2, False, jobs)
 
 
+class _Enough(Exception):
+    pass
+
+
+def _guard(ctx, t0):
+    """run-away protection: stop generating once the oracle has failing inputs, or when the
+    tier's time budget for generating cases is used up (noted, not a verdict)"""
+    import time
+    if len(ctx.failures) >= 40:
+        ctx.note("generation-stopped:failing-inputs-found")
+        raise _Enough()
+    if time.time() - t0 > (480 if ctx.thorough else 100):
+        ctx.note("generation-stopped:time-budget")
+        raise _Enough()
+
+
 def run(ctx, only=None):
+    import time
+    t0 = time.time()
     loop = asyncio.new_event_loop()
     jobs = []
     try:
+        _run(ctx, only, loop, jobs, t0)
+    except _Enough:
+        pass
+    finally:
+        loop.run_until_complete(loop.shutdown_default_executor())
+        loop.close()
+    if jobs:
+        compare_with_model(ctx, jobs)
+
+
+def _run(ctx, only, loop, jobs, t0):
+    if True:
         if only is not None:
             for sc in only:
                 run_scenario(ctx, loop, sc, False, jobs)
@@ -1052,10 +1120,13 @@ def run(ctx, only=None):
             by_label = {s["pair"]: s for s in scs}
             chain = {"grow", "shrink", "unicode", "nofile->nonempty"} | ({s["pair"] for s in scs if s["pair"].startswith("random")} if ctx.thorough else set())
             for idx, sc in enumerate(scs):
+                _guard(ctx, t0)
                 try:
                     res = with_faults(ctx, loop, sc, ctx.thorough and idx % 3 == 0, jobs, want_states=sc["pair"] in chain)
                     if res and sc["pair"] in chain:
                         second_saves(ctx, loop, sc, res["states"], jobs, ctx.scale(3, 8))
+                except _Enough:
+                    raise
                 except Exception as e:  # changed code must not crash the harness
                     ctx.disagree({"pair": sc["pair"]}, "harness step raised %s: %s" % (type(e).__name__, e), "n/a", where="run_scenario")
             kind_pairs = ["grow", "nofile->nonempty"] + (["shrink", "unicode", "nonempty->emptylist", "random0", "random1"] if ctx.thorough else [])
@@ -1063,6 +1134,7 @@ def run(ctx, only=None):
                 for label in kind_pairs:
                     if label not in by_label:
                         continue
+                    _guard(ctx, t0)
                     try:
                         with_faults(ctx, loop, dict(by_label[label], kind=kind), False, jobs)
                     except Exception as e:
@@ -1078,11 +1150,6 @@ def run(ctx, only=None):
                         run_scenario(ctx, loop, dict(by_label[label], kind=kind), False, jobs)
                     except Exception as e:
                         ctx.disagree({"pair": label, "kind": kind}, "harness step raised %s: %s" % (type(e).__name__, e), "n/a", where="run_scenario")
-    finally:
-        loop.run_until_complete(loop.shutdown_default_executor())
-        loop.close()
-    if jobs:
-        compare_with_model(ctx, jobs)
 
 
 def replay(ctx, failure):
